@@ -128,6 +128,8 @@ func dispatchReq(path string, hdrs map[string]string) *envoy.CheckRequest {
 
 var c08Inputs = []map[string]string{
 	{}, {"x-t": "a"}, {"x-t": "ab"}, {"x-t": "b"}, {"x-t": ""}, {"x-other": "a"}, {"x-t": "a", "x-other": "ab"}, {"x-t": "abc"},
+	// the header value is compared as a whole: lists, blanks and case are not interpreted
+	{"x-t": "b,a"}, {"x-t": "a,b"}, {"x-t": " a"}, {"x-t": "a "}, {"x-t": "A"}, {"x-t": "b, a"},
 }
 
 func chars(s string) []any {
